@@ -5,7 +5,8 @@ error-side lemmas about the check combinators (core only).
 import AutomataVerif.Proofs.Validate
 import AutomataVerif.Model.ValidateAll
 
-namespace AV
+namespace AV.VA
+open AV
 
 set_option linter.unusedSectionVars false
 
@@ -43,6 +44,15 @@ theorem firstErr_eq_error {β : Type} {l : List β} {f : β → Res Unit} {e : E
   rcases key l _ h with h' | h'
   · cases h'
   · exact h'
+
+/-- Equality of validation verdicts is decidable (used by the concrete examples). -/
+instance instDecidableEqResUnit : DecidableEq (Res Unit) := fun a b =>
+  match a, b with
+  | .ok (), .ok () => isTrue rfl
+  | .error e, .error e' =>
+    if h : e = e' then isTrue (by rw [h]) else isFalse (fun h' => h (by cases h'; rfl))
+  | .ok _, .error _ => isFalse (fun h => by cases h)
+  | .error _, .ok _ => isFalse (fun h => by cases h)
 
 theorem Res.ne_ok_iff {r : Res Unit} : r ≠ .ok () ↔ ∃ e, r = .error e := by
   cases r with
@@ -408,4 +418,4 @@ theorem validate_eq_ok (d : MNTM σ γ) : d.validate = .ok () ↔ d.WF := by
 
 end MNTM
 
-end AV
+end AV.VA
